@@ -20,6 +20,7 @@ macro_rules! config {
             type E = $e;
             const NAME: &'static str = $label;
             fn mem_builder() -> Self::M { $mb }
+            fn new_xvec() -> V<Self> { any_vec::AnyVec::new_in::<X8a8d>($mb) }
             fn backend() -> (bool, i64, &'static str) { ($fixed, $fcap, $backend) }
             $( config!(@cap $cap, $e); )*
         }
